@@ -184,6 +184,26 @@ def cases(prop, tier, seed):
               steps += [['reply', 0], ['reply', 0], ['adv', 10]]
             steps += [['req', 5, 0], ['adv', 10], ['reply', 2], ['reply', 1], ['reply', 0], ['adv', 100]]
             out.append({'kind': 'mux', 'fault_at': {}, 'plans': [['ok', 0]], 'steps': steps, 'rseed': stall + gap})
+  if prop == 'C11':
+    # a long-lived connection whose tag counter is near a boundary of the 24-bit tag space (or of a narrower
+    # field): requests in flight below the boundary, then the counter is fast-forwarded, then more requests
+    for k in (254, 255, 32766, 65533, 65534, 65535, 8388606, 16777210, 16777211, 16777212):
+      for pre in (0, 3):
+        for post in (3, 6):
+          steps = [['open'], ['adv', 20]]
+          r = 0
+          for _ in range(pre):
+            r += 1
+            steps.append(['req', r, 0])
+          steps += [['adv', 10], ['age', k]]
+          for _ in range(post):
+            r += 1
+            steps.append(['req', r, rng.choice([0, 0, 53])])
+          steps += [['adv', 10]]
+          for _ in range(r):
+            steps.append(['reply', rng.choice([0, 0, 1, 5])])
+          steps += [['adv', 100], ['req', r + 1, 0], ['req', r + 2, 0], ['adv', 10], ['reply', 1], ['reply', 0], ['adv', 100]]
+          out.append({'kind': 'mux', 'fault_at': {}, 'plans': [['ok', 0]], 'steps': steps, 'rseed': k})
   for i in range(n):
     out.append(_gen_random(rng, i, kafka=(prop == 'C11')))
   return out
@@ -400,6 +420,9 @@ def run_case(script):
           ev.append({'e': 'Silence', 'on': 1 if op[1] else 0, 't': ms()})
     elif k == 'stepq':
       loop.step(op[1])
+    elif k == 'age':
+      if kind == 'mux' and common.age_tag_pools(op[1]):
+        ev.append({'e': 'Age', 'k': op[1], 't': ms()})
     elif k == 'adv':
       loop.run_for(op[1] / 1000.0)
       quiet()
